@@ -87,6 +87,8 @@ Definition model_bb_from (a : acase) : list Z :=
 
 (* ---- 341: pod_collect_to_vec (only the count and the layout; bytes are checked by the monitor) ---- *)
 Definition model_collect (a : acase) : list Z :=
+  if (sz (a_B a) =? 0)%N then   (* the guard of the repaired function: an empty Vec; it holds the source bytes only if there are none *)
+    let e := zb (dec (a_len a) * sz (a_A a) =? 0)%N in [1; 0; e; e; 1; 0; 0; 0] else
   match collect_count (dec (a_len a) * sz (a_A a)) (sz (a_B a)) with
   | Ret n => let bytes := (n * sz (a_B a))%N in
              [1; enc n; 1; 1; 1; if (bytes =? 0)%N then 0 else Z.of_N bytes; if (bytes =? 0)%N then 0 else Z.of_N (al (a_B a)); 0]
@@ -258,9 +260,11 @@ Definition mon_c15_from (a : acase) (v : list Z) : bool :=
 (* C16 *)
 Definition mon_c16 (a : acase) (v : list Z) : bool :=
   let bytes := (dec (a_len a) * sz (a_A a))%N in let sb := sz (a_B a) in
-  (nthz 0 v =? 1) &&
-  (if (sb =? 0)%N then true else nthz 1 v =? Z.of_N ((bytes + sb - 1) / sb)) &&
-  (nthz 2 v =? 1) && (nthz 3 v =? 1) && (nthz 4 v =? 1) && (nthz 7 v =? 0).
+  (* never panics, never leaks - zero-sized sources and targets included; for a target of non-zero
+     size: rounded-up length, copied prefix, zero tail, buffer aligned for the target *)
+  (nthz 0 v =? 1) && (nthz 7 v =? 0) &&
+  (if (sb =? 0)%N then true
+   else (nthz 1 v =? Z.of_N ((bytes + sb - 1) / sb)) && (nthz 2 v =? 1) && (nthz 3 v =? 1) && (nthz 4 v =? 1)).
 
 (* C12 *)
 Definition mon_c12 (a : acase) (v : list Z) : bool :=
@@ -312,9 +316,9 @@ Definition amonitors (a : acase) (v : list Z) : list (N * bool) :=
       else [(9%N, mon_c09_cast k a v); (10%N, mon_c10_cast k a v)]
   | None =>
       match a_fn a with
-      | 321%N | 335%N => [(15%N, mon_c15_of false a v)]
-      | 322%N | 323%N => [(15%N, mon_c15_of true a v)]
-      | 331%N | 332%N => [(15%N, mon_c15_from a v)]
+      | 321%N | 335%N => [(15%N, mon_c15_of false a v); (9%N, mon_c15_of false a v)]
+      | 322%N | 323%N => [(15%N, mon_c15_of true a v); (9%N, mon_c15_of true a v)]
+      | 331%N | 332%N => [(15%N, mon_c15_from a v); (9%N, mon_c15_from a v)]
       | 333%N | 334%N => [(15%N, mon_c15_from a v); (11%N, mon_c15_from a v)]
       | 341%N => [(16%N, mon_c16 a v)]
       | 351%N | 352%N | 353%N | 354%N | 355%N | 361%N | 362%N => [(12%N, mon_c12 a v)]
